@@ -42,13 +42,13 @@ FLAG_TOPOLOGY = {
 }
 
 
-def check_flag_ownership(rep, core):
+def check_flag_ownership(rep, core, rid='R06.i'):
     """R06.i: cancelling is the ONLY way a flag becomes set, and a flag reaches only the work it belongs to: (1) every atomic write in the
     command runtime is one of the tabled (function, flag) pairs — `aborted` is written by the two abort methods alone, so an evicted,
     finished or woken task never flags anything; (2) every value that carries an `aborted` flag gets it as tabled: a new command and a
     spawned task get a fresh flag, the root task / the handles share their owner's."""
     from rules.facts import keypath
-    rep.rule('R06.i', 'the aborted flags are written only by the abort methods, and each command / spawned task has a flag of its own', floor=8)
+    rep.rule(rid, 'the aborted flags are written only by the abort methods, and each command / spawned task has a flag of its own', floor=8)
     seen_w = set()
     for f in core.built:
         if f.j.get('exp') or '::command::' not in f.npath or '::testing' in f.npath:
@@ -65,12 +65,12 @@ def check_flag_ownership(rep, core):
             key = '%s|writes|%s' % (host, flag)
             if (host, flag) in FLAG_WRITERS:
                 seen_w.add((host, flag))
-                rep.ok('R06.i', key, 'tabled: ' + FLAG_WRITERS[(host, flag)])
+                rep.ok(rid, key, 'tabled: ' + FLAG_WRITERS[(host, flag)])
             elif 'aborted' not in fields and (fields or 'Atomic<bool>' not in (t['args'][0].get('t') or '')):
                 # another flag of the runtime (finished, woken, a counter): where it is written is the business of R07.b / R05.b
-                rep.ok('R06.i', key, 'not an aborted flag (%s)' % sorted(fields))
+                rep.ok(rid, key, 'not an aborted flag (%s)' % sorted(fields))
             else:
-                rep.bad('R06.i', key, '%s writes the flag `%s` (%s at %s): only %s may set an aborted flag — work that was not cancelled '
+                rep.bad(rid, key, '%s writes the flag `%s` (%s at %s): only %s may set an aborted flag — work that was not cancelled '
                         'through a handle (an evicted or finished task, a sibling) must not become aborted, and through the flag it shares, neither may its command'
                         % (host, flag, last_seg(cn), f.where(bb), 'AbortHandle::abort / JoinHandle::abort'))
     # ... and a flag stays with its owner for life: the `aborted` field of a command / task / handle is set where the value is built
@@ -80,13 +80,13 @@ def check_flag_ownership(rep, core):
             continue
         for bb, i, s_ in f.stmts('assign'):
             if s_['d']['p'] and s_['d']['p'][-1] == '.aborted':
-                rep.bad('R06.i', '%s|reassigns|aborted' % core.host_root(f), '%s assigns a new value to an `aborted` field at %s: the handles already taken '
+                rep.bad(rid, '%s|reassigns|aborted' % core.host_root(f), '%s assigns a new value to an `aborted` field at %s: the handles already taken '
                         'keep the old flag (they can no longer cancel the work) and an aborted command becomes live again' % (core.host_root(f), f.where(bb)))
         for bb, t in f.calls('core::mem::replace', 'core::mem::swap', 'core::mem::take'):
             if t.get('args') and 'aborted' in c01.field_of_receiver(f, t['args'][0]) and 'Arc<' in (t['args'][0].get('t') or ''):
-                rep.bad('R06.i', '%s|reassigns|aborted' % core.host_root(f), '%s replaces an `aborted` flag at %s' % (core.host_root(f), f.where(bb)))
+                rep.bad(rid, '%s|reassigns|aborted' % core.host_root(f), '%s replaces an `aborted` flag at %s' % (core.host_root(f), f.where(bb)))
     if len([k for k in seen_w if k[1] == 'aborted']) < 2:
-        rep.bad('R06.i', 'writers', 'expected the two abort methods to write `aborted`, found %s' % sorted(seen_w))
+        rep.bad(rid, 'writers', 'expected the two abort methods to write `aborted`, found %s' % sorted(seen_w))
     seen_t = set()
     for f in core.built:
         if f.j.get('exp') or '::testing' in f.npath:
@@ -100,7 +100,7 @@ def check_flag_ownership(rep, core):
             want = FLAG_TOPOLOGY.get((host, ty))
             key = '%s|%s|flag' % (host, ty)
             if want is None:
-                rep.bad('R06.i', key, 'a %s with an aborted flag is built in %s, which is not in the flag table' % (ty, host))
+                rep.bad(rid, key, 'a %s with an aborted flag is built in %s, which is not in the flag table' % (ty, host))
                 continue
             seen_t.add((host, ty))
             src = origins(f, rv['ops'][rv['fields'].index('aborted')])
@@ -116,14 +116,14 @@ def check_flag_ownership(rep, core):
             shared = bool(src) and all(of_owner(o) for o in src)
             if want == 'fresh':
                 # the fresh flag is not also handed to anything but the values tabled as sharing it
-                rep.expect('R06.i', fresh, key, 'gets a flag of its own (Default::default())',
+                rep.expect(rid, fresh, key, 'gets a flag of its own (Default::default())',
                            '%s: the %s no longer gets an aborted flag of its own: cancelling it cancels whatever it now shares the flag with (or the reverse)' % (host, ty))
             else:
-                rep.expect('R06.i', shared, key, 'shares its owner\'s flag (a clone of the Arc)',
+                rep.expect(rid, shared, key, 'shares its owner\'s flag (a clone of the Arc)',
                            '%s: the %s no longer shares the aborted flag of the work it controls' % (host, ty))
     missing = [k for k in FLAG_TOPOLOGY if k not in seen_t]
     if missing:
-        rep.bad('R06.i', 'topology', 'flag constructions not found: %s' % missing)
+        rep.bad(rid, 'topology', 'flag constructions not found: %s' % missing)
 
 
 def method(core, adt, name):
